@@ -1,3 +1,7 @@
+#[cfg(kanal_verif)]
+use crate::verif::core;
+#[cfg(kanal_verif)]
+use crate::verif::{ptr_event, Branch, PtrOp};
 use core::{
     cell::UnsafeCell,
     mem::{forget, size_of, zeroed, MaybeUninit},
@@ -75,10 +79,16 @@ impl<T> KanalPtr<T> {
     #[inline(always)]
     pub(crate) unsafe fn read(&self) -> T {
         if size_of::<T>() == 0 {
+            #[cfg(kanal_verif)]
+            ptr_event(PtrOp::Read, &self.0, Branch::Zst, size_of::<T>());
             zeroed()
         } else if size_of::<T>() > size_of::<*mut T>() {
+            #[cfg(kanal_verif)]
+            ptr_event(PtrOp::Read, &self.0, Branch::Indirect, size_of::<T>());
             ptr::read((*self.0.get()).assume_init())
         } else {
+            #[cfg(kanal_verif)]
+            ptr_event(PtrOp::Read, &self.0, Branch::Inline, size_of::<T>());
             ptr::read((*self.0.get()).as_ptr() as *const T)
         }
     }
@@ -86,9 +96,17 @@ impl<T> KanalPtr<T> {
     #[inline(always)]
     pub(crate) unsafe fn write(&self, d: T) {
         if size_of::<T>() > size_of::<*mut T>() {
+            #[cfg(kanal_verif)]
+            ptr_event(PtrOp::Write, &self.0, Branch::Indirect, size_of::<T>());
             ptr::write((*self.0.get()).assume_init(), d);
         } else {
+            #[cfg(kanal_verif)]
+            if size_of::<T>() == 0 {
+                ptr_event(PtrOp::Write, &self.0, Branch::Zst, size_of::<T>());
+            }
             if size_of::<T>() > 0 {
+                #[cfg(kanal_verif)]
+                ptr_event(PtrOp::Write, &self.0, Branch::Inline, size_of::<T>());
                 *self.0.get() = store_as_kanal_ptr(&d);
             }
             forget(d);
@@ -98,13 +116,21 @@ impl<T> KanalPtr<T> {
     #[inline(always)]
     #[allow(unused)]
     pub(crate) unsafe fn copy(&self, d: *const T) {
+        #[cfg(kanal_verif)]
+        if size_of::<T>() == 0 {
+            ptr_event(PtrOp::Copy, &self.0, Branch::Zst, size_of::<T>());
+        }
         if size_of::<T>() > size_of::<*mut T>() {
+            #[cfg(kanal_verif)]
+            ptr_event(PtrOp::Copy, &self.0, Branch::Indirect, size_of::<T>());
             // Data can't be stored as pointer value, move it to pointer
             // location
             ptr::copy_nonoverlapping(d, (*self.0.get()).assume_init(), 1);
         } else if size_of::<T>() > 0 {
             // Data size is less or equal to pointer size, serialize data as
             // pointer address
+            #[cfg(kanal_verif)]
+            ptr_event(PtrOp::Copy, &self.0, Branch::Inline, size_of::<T>());
             *self.0.get() = store_as_kanal_ptr(d);
         }
     }
